@@ -757,7 +757,10 @@ def q_bounds(ctx, p):
                 discharged=discharged, functions=functions[:40], details=details)
 
 
-def free_names(t):
+def free_names(t, data_only=False):
+    """names of the uninterpreted constants of a term; with data_only the CONDITIONS of if-then-else
+    terms (path conditions introduced where control flow merges) are not followed: only the values
+    that can flow into the term count"""
     out, seen, stack = set(), set(), [t]
     while stack:
         x = stack.pop()
@@ -766,14 +769,17 @@ def free_names(t):
         seen.add(x.get_id())
         if z3.is_const(x) and x.decl().kind() == z3.Z3_OP_UNINTERPRETED:
             out.add(x.decl().name())
-        stack.extend(x.children())
+        ch = x.children()
+        if data_only and z3.is_app_of(x, z3.Z3_OP_ITE):
+            ch = ch[1:]
+        stack.extend(ch)
     return out
 
 
 def provenance_ok(enc, term, need_input):
     """decided only where the term is built from INPUTS (integer parameters, fields of by-value
     parameters, results of str::parse) plus lengths of existing collections and constants"""
-    names = free_names(term)
+    names = free_names(term, data_only=True)
     n_in = 0
     for n in names:
         if re.search(r":arg_\d+!\d+$", n) or re.search(r":place_(parsed|argval)!\d+$", n):
@@ -863,6 +869,56 @@ def q_alloc_bound(ctx, p):
                 discharged=discharged, functions=functions[:40], details=details)
 
 
+def q_float_guard(ctx, p):
+    """Float-to-duration conversions: at every call matching p['call'] (Duration::from_secs_f64,
+    which panics on NaN, infinities, negative and too large values) whose argument is a modelled
+    IEEE-754 term, no execution exists on which the argument is NaN, infinite, negative or above
+    p['limit'] seconds.  Floats parsed from the request are arbitrary binary64 values."""
+    funcs = ctx.funcs
+    call_re = re.compile(p.get("call", r"Duration::from_secs_f64$"))
+    limit = float(p.get("limit", 1e11))
+    witnesses, details, functions = [], [], []
+    obligations = discharged = undecided = 0
+    for name, fn in funcs.items():
+        if name.startswith("const ") or any(re.search(x, name) for x in p.get("skip", [])):
+            continue
+        sites = [b for b, blk in fn.blocks.items() if blk.term and blk.term["kind"] == "call" and call_re.search(norm_callee(blk.term["callee"]))]
+        if not sites:
+            continue
+        try:
+            enc = sym.Enc(fn, funcs, sym.Glob())
+        except Exception as ex:
+            details.append("%s: not encoded (%r)" % (short_fn(fn.name), ex))
+            continue
+        s = z3.Solver()
+        s.add(enc.extra)
+        functions.append(fn.name)
+        for b in sites:
+            if b not in enc.reach:
+                continue
+            t = enc.blocks[b].term
+            x = enc.operand(enc.out_state[b], t["args"][0]) if t["args"] else None
+            if x is None or not z3.is_fp(x):
+                undecided += 1
+                continue
+            obligations += 1
+            bad = z3.Or(z3.fpIsNaN(x), z3.fpIsInf(x), z3.fpLT(x, z3.FPVal(0.0, z3.Float64())), z3.fpGT(x, z3.FPVal(limit, z3.Float64())))
+            r = ctx.check(s, enc.reach[b], bad)
+            if r == z3.unsat:
+                discharged += 1
+            elif r == z3.sat:
+                witnesses.append(dict(key="%s: unguarded float duration" % short_fn(fn.name),
+                                      what="%s bb%d: %s can be called with NaN, an infinity, a negative value or more than %g seconds (argument %s)" % (
+                                          short_fn(fn.name), b, norm_callee(t["callee"])[-40:], limit, t["args"][0])))
+            else:
+                undecided += 1
+    details.append("%d functions with float-to-duration conversions; %d sites decided, %d undecided" % (len(functions), obligations, undecided))
+    if obligations == 0:
+        return dict(status="inconclusive", reason="vacuity guard: no float-to-duration conversion could be decided", details=details)
+    return dict(status="failed" if witnesses else "held", witnesses=witnesses, obligations=obligations,
+                discharged=discharged, functions=functions[:40], details=details)
+
+
 def q_must_call(ctx, p):
     """Every execution that reaches a normal return with `_0 = Ok(..)` (or any return, if
     ok_only is false) has passed a call matching `call` (optionally with an argument matching
@@ -934,6 +990,7 @@ KINDS = {
     "must_call": q_must_call,
     "bounds": q_bounds,
     "alloc_bound": q_alloc_bound,
+    "float_guard": q_float_guard,
     "guarded": q_guarded,
     "no_error_after": q_no_error_after,
     "arg_flow": q_arg_flow,
